@@ -328,7 +328,7 @@ def q5_level_change(ctx) -> None:
     if not ext:
         ctx.violation("Q10", f, "_change_level does not move next_level into the current level", construct=f"{Q}._change_level carry")
     for c in ext:
-        t = norm(c)
+        t = norm(D.expanded(f, c))
         if "self.next_level.elements()" in t:
             ctx.violation("Q10", c, "labels are carried over with multiplicity: the same label is expanded several times per level")
         elif norm(c.func.value) != "self.curr_level[0]":
